@@ -32,6 +32,7 @@ type Harness struct {
 	Tiers     []string // tiers it runs in (empty = all)
 	Panics    bool     // a panic escaping the harness is a violation
 	Seq       bool     // run `go` statements synchronously
+	LateGo    bool     // go statements run when the spawner blocks on a channel receive
 	Locks     bool     // track mutex state; self-deadlock is a panic, TryLock answers from the state
 	MapOrders []string // //gosym:maporders: functions whose small map ranges run in every order
 }
@@ -75,6 +76,8 @@ func LoadHarnessFiles(paths []string) (*HarnessSet, error) {
 						pending.Seq = true
 					case "locks":
 						pending.Locks = true
+					case "latego":
+						pending.LateGo = true
 					}
 				}
 			case strings.HasPrefix(line, "//gosym:maporders "):
@@ -167,6 +170,7 @@ func (s *Session) Explore(h Harness) (*Report, error) {
 	s.Engine.SeqGo = h.Seq
 	s.Engine.MapOrders = h.MapOrders
 	s.Engine.TrackLocks = h.Locks
+	s.Engine.LateGo = h.LateGo
 	rep := s.Engine.Explore(fn)
 	for _, c := range h.Covers {
 		if rep.Covers[c] == 0 {
